@@ -1212,6 +1212,19 @@ def M_char_to_string(it, ctx, args, st):
         raise Unsupported('char::to_string of a possibly non-ASCII char (UTF-8 encoding not modelled)')
     yield st, BStr((z3.Extract(7, 0, c),), bv(1))
 
+
+def M_float_from(it, ctx, args, st):
+    tgt = strip_refs(ctx.self_ty)[1]
+    v = args[0]
+    so = z3.Float64() if tgt == 'f64' else z3.Float32()
+    if z3.is_fp(v):
+        yield st, z3.fpFPToFP(z3.RNE(), v, so)
+    elif z3.is_bv(v):
+        src = ctx.trait[2][0][1]
+        yield st, (z3.fpSignedToFP(z3.RNE(), v, so) if src[0] == 'i' else z3.fpUnsignedToFP(z3.RNE(), v, so))
+    else:
+        raise Unsupported('float From of ' + repr(v)[:60])
+
 P = r'(?:std|core|alloc)::'
 OPT = P + r'option::Option::<.*>::'
 RES = P + r'result::Result::<.*>::'
@@ -1293,6 +1306,7 @@ MODELS = [
     (r'<' + P + r'boxed::Box<dyn .*> as ' + P + r'convert::From<.*>>::from', M_identity),
     (P + r'iter::empty::<.*>', lambda it, ctx, args, st: iter([(st, It('list', ()))])),
     (r'<char as ' + P + r'string::ToString>::to_string', M_char_to_string),
+    (r'<f(?:64|32) as ' + P + r'convert::From<(?:f32|f64|[iu](?:8|16|32))>>::from', M_float_from),
     (P + r'mem::drop::<.*>', M_unit),
     (r'<(?:' + P + r'string::String|str) as ' + P + r'ops::Index<' + P + r'ops::Range\w*(<usize>)?>>::index', M_str_index_range),
     (P + r'fmt::rt::Argument::<.*>::new_\w+::<.*>|' + P + r'fmt::rt::Argument::new_\w+::<.*>', M_fmt_argument),
